@@ -15,8 +15,18 @@
 import Orbiter.Props.C01
 import Orbiter.Props.C04
 import Orbiter.Lemmas.Reach
+import Orbiter.Expect
 namespace Orbiter.C02
 open Orbiter
+
+/-- Coverage obligation for "nothing is minted, only the named accounts move": the bank offers the module a balance read and a
+plain send, nothing else (no mint, burn, delegation or module-to-module helper), as `Ctx.send` assumes. -/
+theorem pin_bank_surface :
+    Gen.externalSurface.lookup "types.BankKeeper" =
+      some ["GetBalance func(context.Context, types.AccAddress, string) types.Coin",
+            "SendCoins func(context.Context, types.AccAddress, types.AccAddress, types.Coins) error"] ∧
+    Gen.externalSurface.lookup "action.BankKeeperFee" =
+      some ["SendCoins func(context.Context, types.AccAddress, types.AccAddress, types.Coins) error"] := by decide +kernel
 
 def feeMoves (orb : Addr) (denom : String) (credits : List (Bytes × Int)) : List Move :=
   credits.map fun v => .xfer orb v.1 denom v.2.toNat
